@@ -1759,6 +1759,28 @@ func main() {
 	}
 	enumerateErrIdent(rep.Tier, visit)
 
+	// the onward multiplicity cases (multiplicity.go)
+	muOK, muWhat := muReference(rep.Tier)
+	if !muOK {
+		inconclusive("the model of repeated onward calls is not what grpc-go's chained server interceptors do: %s", muWhat)
+	}
+	muCases := 0
+	var muSamples []interface{}
+	enumerateMu(rep.Tier, func(c caseT) {
+		evals++
+		muCases++
+		before, beforeM := atomic.LoadInt64(&muCallCount), atomic.LoadInt64(&muMultiObserved)
+		probs, obs := runCase(c, false)
+		calls += int(atomic.LoadInt64(&muCallCount) - before)
+		if atomic.LoadInt64(&muMultiObserved) > beforeM {
+			distinct[c.String()] = true
+		}
+		if len(muSamples) < 4 && c.Carrier != "direct" && c.Mu.N[0] >= 2 && onwardBeh(c.D1) && onwardBeh(c.D2) && c.Mu.Fresh && muCases%401 == 0 {
+			muSamples = append(muSamples, map[string]interface{}{"case": c, "observed": obs})
+		}
+		report(c, probs)
+	})
+
 	// the configuration order cases (cfgorder.go)
 	cfgCases, cfgReconfigured := 0, 0
 	cfgProgs := enumerateCfg(rep.Tier, func(c caseT) {
@@ -1843,33 +1865,37 @@ func main() {
 		fmt.Printf("(%d further distinct fingerprints not reported individually after the first %d)\n", suppressed, maxReported)
 	}
 	os.Exit(rep.Finish("exploration", map[string]interface{}{
-		"evaluations":              evals,
-		"sharing_cases":            sharedCases,
-		"context_cases":            ctxCases,
-		"client_flag_cases":        cfCases,
-		"passthrough_cases":        ptCases,
-		"error_identity_cases":     eiCases,
-		"error_identity_self_test": eiWhat,
-		"config_order_programs":    cfgProgs,
-		"config_order_cases":       cfgCases,
-		"config_order_cases_reconfigured_after_a_registration": cfgReconfigured,
-		"config_order_calls": atomic.LoadInt64(&cfgCallCount),
+		"evaluations":               evals,
+		"sharing_cases":             sharedCases,
+		"context_cases":             ctxCases,
+		"client_flag_cases":         cfCases,
+		"passthrough_cases":         ptCases,
+		"error_identity_cases":      eiCases,
+		"error_identity_self_test":  eiWhat,
+		"onward_multiplicity_cases": muCases,
+		"onward_multiplicity_calls": atomic.LoadInt64(&muCallCount),
+		"onward_multiplicity_calls_with_an_interceptor_that_called_onward_more_than_once": atomic.LoadInt64(&muMultiObserved),
+		"onward_multiplicity_reference":                            muWhat,
+		"config_order_programs":                                    cfgProgs,
+		"config_order_cases":                                       cfgCases,
+		"config_order_cases_reconfigured_after_a_registration":     cfgReconfigured,
+		"config_order_calls":                                       atomic.LoadInt64(&cfgCallCount),
 		"config_order_calls_in_force_differs_from_at_registration": atomic.LoadInt64(&cfgMoved),
-		"overlap_cases":                   ovCases,
-		"view_programs":                   vwPrograms,
-		"view_program_cases":              vwCases,
-		"view_program_calls":              atomic.LoadInt64(&vwCallCount),
-		"instance_calibration":            calWhat,
-		"overlap_runs":                    ovRuns,
-		"overlap_cases_rpc1_held_at_gate": ovHeld,
-		"overlap_repeat_identical":        ovRepeatDiffer == 0,
-		"pool_reuse_calibration":          fmt.Sprintf("%d/%d", cal, calRounds),
-		"rpc_calls":                       calls,
-		"distinct_nontrivial":             len(distinct),
-		"rule":                            "every configuration of: descriptor shape (0-2 unary x 0-2 streams with every flag pair) x carrier (direct call of the decorated descriptor / inprocgrpc.Channel / httpgrpc.Server via HandlerRT) x form (InterceptServer / WithInterceptor) x depth x kind called x behaviour {nil,pass,short-circuit,fail,rewrite} of the transport-level, outer and inner interceptor of that kind x nil/set of each interceptor of the other kind x handler ok/error; every method of the kind is called. Behaviours of other-kind interceptors are not varied because the oracle demands they are never invoked. In addition the SHARING cases: one decorated description (InterceptServer) or decorated HandlerMap (WithInterceptor), outer decoration behaviour {pass,short,fail,rewrite} x inner {none; quick: pass; thorough: all four} on 4 (quick) / 21 (thorough) shapes, is contributed through HandlerMap.ForEach/RegisterService to 2 or 3 in-process channels / HTTP servers, or its handler is called directly 2 or 3 times, with every sequence over {no transport interceptor, A, B} of length 2 and 3; every method of the kind is called on every carrier in turn, same oracle per call. CONTEXT cases: the RPC's context is already cancelled at dispatch (direct carrier) or is cancelled by the transport-level interceptor just before it calls onward (direct carrier and in-process channel, waiting for the server side to finish), all behaviours of T/outer/inner, same oracle on the event log and on identities (on the in-process channel the client-visible result is not judged in these cases). CLIENT-FLAG cases: on the in-process channel and the HTTP server the client opens the stream with a StreamDesc whose flags differ from the registered ones; interceptors must be told the registered flags. PASS-THROUGH cases (swept around the base grammar on 3 (quick) / 21 (thorough) descriptor shapes, other-kind interceptors absent): transport-level {absent or set} x outer {set} x inner {absent or set} interceptor, each set one taking every behaviour of {short-circuit, fail} + {pass, replace the response (stream: the error), replace the error (unary: (nil, Aborted) whatever came back; stream: swallow it)} x what it hands onward (unary: the request received / a modified clone of it x the context received / a derived context carrying a value; stream: the ServerStream received / a wrapper with a derived context that suffixes every message in both directions), x carrier x form x handler ok/error, minus the combinations the base grammar has; the oracle demands that each layer (next interceptor, then handler) is given exactly the request / stream object the previous layer handed onward, sees the context values of every layer before it, that each layer gets back exactly what the next one returned, that the handler reads the value with the suffixes of all replacing layers in order, and that the caller / client sees the model's result. OVERLAP cases (2 (quick) / 5 (thorough) descriptor shapes): two RPCs on ONE decorated carrier; one interceptor X on the path (transport-level, outer or inner in turn; layers before X pass or rewrite or are absent, layers after X take every behaviour) makes its single onward call late: inline after a gate opens / from another goroutine that waits for the gate while X waits for it / from another goroutine after X has returned DeadlineExceeded itself; RPC 1 is held at X's gate (in the last mode: has completed for its caller), then RPC 2 to every method of the kind (the same one included) runs ungated to completion, or is held the same way and the gates are opened 2-then-1 or 1-then-2; x carrier x form x handler ok/error. All waiting is on channels. The oracle is the statement per RPC (events are attributed to an RPC by the request value / stream metadata the event was given): each interceptor once, told that RPC's FullMethod and flags, handler iff every interceptor called onward, the handler of that RPC's method, results passed through; an onward-calling interceptor that has not returned yet reads the info object it was given a second time when its onward call has come back (as logging interceptors do), and it must still say the same. The overlap phase runs with GOMAXPROCS(1) and garbage collection only between cases, so that a sync.Pool hands back what was put last (calibrated: pool_reuse_calibration) and reuse of recycled per-call state by the other RPC happens every time; every overlap case is run twice and both runs must observe the same (overlap_repeat_identical; a difference is printed, and aborts the run as inconclusive unless one of the two runs violated the statement, which is then reported). VIEW PROGRAMS (views.go; view_programs / view_program_cases / view_program_calls): two root registries R0, R1 of the carrier type (HandlerMap whose decorated handlers are called directly / inprocgrpc.Channel / httpgrpc.Server), each behind a registrar that records what arrives, each with transport-level interceptor instances of its own or none; a program is any sequence of V derivations 'view = WithInterceptor(parent, u?, s?)' (parent: any registry that exists at that point, root or earlier view; (u?,s?) in {(u,-),(-,s),(u,s)}; every view has interceptor instances of its own) and R registrations 'description X/Y/Z (one unary and one stream method each; X bidi, Y server-, Z client-streaming), or the decorated description that an earlier registration put onto the other root, with a server object of its own, through any registry that exists at that point', in every interleaving (views that are derived and never registered through included; one description pointer may be registered on both roots; programs equal up to renaming of views / descriptions / roots are enumerated once). Sizes (V,R): quick (1,1) (1,2) (2,1) crossed, (2,2) swept, (3,1) at the base point; thorough (1,1) (1,2) (2,1) (2,2) crossed, (1,3) (3,1) swept, (2,3) at the base point with every way of making instances, (3,2) at the base point. Crossed = program x carrier x form (WithInterceptor objects / InterceptServer applied by hand along the path of views) x way of making the interceptor instances {closures returned by one factory function (distinct values, one code pointer) / method values of one receiver object per view (distinct values, one code pointer) / a function literal of its own per instance (distinct code) / the very same pair of function values for all views} x transport-level interceptors {none, on both roots} x when the calls are made {after the program in registration order / in reverse order / after every single operation, everything registered so far} x which view's interceptors fail instead of calling onward {none, each view in turn}; swept = the base point (closures, transport-level interceptors, calls at the end, nothing fails) and every point differing from it in one of these four dimensions. Every call is one unary and one stream RPC per registered service; oracle = the per-instance event log (transport-level interceptor of that root, then the interceptor of the kind of every view on the path from the root to the registry registered through, root-most first, then those the re-registered decoration result already had, each once, then the handler with that registration's server object, and nothing else) plus everything demanded of a single call above, plus the input descriptions unmodified. The four ways of making instances are calibrated at start-up (instance_calibration: code pointers equal / different as intended, every instance logs as itself), otherwise the run is inconclusive. ERROR IDENTITY cases (errident.go; error_identity_cases; swept around the base grammar on 3 descriptor shapes, other-kind interceptors absent): the error that travels up the chain is a plain Go error of each of 9 kinds {sentinel made with errors.New (one value per participant), that sentinel wrapped with fmt.Errorf %w, io.EOF, context.Canceled, context.DeadlineExceeded, a custom pointer type with Unwrap, a custom comparable value type, a *status.Error wrapped with fmt.Errorf %w, a custom type with a GRPCStatus method}, made by the handler (handler fails) or by the interceptor of any layer (fail-raw: returned instead of calling onward; rewrite-raw: returned in place of whatever came back) x carrier x form x unary / stream x transport-level {absent, pass, fail-raw, rewrite-raw} x outer {pass, fail-raw, rewrite-raw} x inner {absent, pass, fail-raw, rewrite-raw} x handler ok / fails (thorough: every layer additionally short-circuit, fail, rewrite, rewrite-err on the 3 shapes, and the small behaviour set on the other 18 shapes); only configurations in which the model makes a plain error on the way are run (the rest is in the base grammar). Oracle: every layer records the exact error value its onward call returned, and that must be the very value the next layer returned (same dynamic type and same pointer / equal comparable value; errors.Is and type assertions follow from that), on every hand-back handler -> inner -> outer -> transport-level interceptor, resp. -> the direct caller of the decorated handler; the client of a transport must see the code and message that grpc-go's server gives such an error (status.FromError, else status.FromContextError). The notion of identity is self-tested at start-up (error_identity_self_test). CONFIGURATION ORDER cases (cfgorder.go; config_order_programs / _cases / _calls): a carrier with transport-level interceptors as ONE long-lived object and every program of 1..3 (quick) / 1..4 (thorough) steps over {R: register a new service as it is; RD: register a new service decorated with interceptors of its own (form WI: through a WithInterceptor view derived right there, or with all views derived before the first step; form IS: InterceptServer by hand); X/K: configure transport-level interceptor X in {T1, T2, none} for K in {unary, stream, both}} that makes at least one call, with one unary and one stream RPC to every service registered so far after EVERY step, on 3 targets: inproc (one inprocgrpc.Channel, X/K = WithServerUnaryInterceptor / WithServerStreamInterceptor at any point, nil clears), httpsrv (one httpgrpc.Server, X/K = options in that order in NewServer's list, hence before the registrations), httpmux (one HandlerMap + one long-lived mux that is a map from pattern to handler, X/K = httpgrpc.HandleServices(mux, '/', map, u, s) with X for the kinds in K and nil for the others, re-registering a pattern replaces its handler; only services covered by a HandleServices call are called). Oracle per call: the transport-level interceptor of the call's kind in force WHEN THE CALL IS MADE (inproc: configured last; httpsrv: last option of the kind; httpmux: the arguments of the latest HandleServices that covered the service) first, then the service's own decoration, each exactly once, then that service's handler with its server object, plus everything demanded of a single call above; input descriptions unmodified. config_order_cases_reconfigured_after_a_registration counts programs with a configuration step after a registration; config_order_calls_in_force_differs_from_at_registration (measured) counts calls for which the interceptor in force differs from the one in force when the service was registered. A configuration is non-trivial when at least one method is called and at least one interceptor is on its path (error identity: and a plain error is made on the way; configuration order: when at least one call had an interceptor on its path, measured; overlap: when RPC 1 really was held at X's gate, measured; view programs: when at least one call had an interceptor on its path, measured); distinct by all parameters.",
-		"samples":                         append(append(append(append(append(samples, ptSamples...), ovSamples...), vwSamples...), eiSamples...), cfgSamples...),
-		"exhaustive":                      true,
-		"suppressed_reports":              suppressed,
+		"overlap_cases":                                            ovCases,
+		"view_programs":                                            vwPrograms,
+		"view_program_cases":                                       vwCases,
+		"view_program_calls":                                       atomic.LoadInt64(&vwCallCount),
+		"instance_calibration":                                     calWhat,
+		"overlap_runs":                                             ovRuns,
+		"overlap_cases_rpc1_held_at_gate":                          ovHeld,
+		"overlap_repeat_identical":                                 ovRepeatDiffer == 0,
+		"pool_reuse_calibration":                                   fmt.Sprintf("%d/%d", cal, calRounds),
+		"rpc_calls":                                                calls,
+		"distinct_nontrivial":                                      len(distinct),
+		"rule":                                                     "every configuration of: descriptor shape (0-2 unary x 0-2 streams with every flag pair) x carrier (direct call of the decorated descriptor / inprocgrpc.Channel / httpgrpc.Server via HandlerRT) x form (InterceptServer / WithInterceptor) x depth x kind called x behaviour {nil,pass,short-circuit,fail,rewrite} of the transport-level, outer and inner interceptor of that kind x nil/set of each interceptor of the other kind x handler ok/error; every method of the kind is called. Behaviours of other-kind interceptors are not varied because the oracle demands they are never invoked. In addition the SHARING cases: one decorated description (InterceptServer) or decorated HandlerMap (WithInterceptor), outer decoration behaviour {pass,short,fail,rewrite} x inner {none; quick: pass; thorough: all four} on 4 (quick) / 21 (thorough) shapes, is contributed through HandlerMap.ForEach/RegisterService to 2 or 3 in-process channels / HTTP servers, or its handler is called directly 2 or 3 times, with every sequence over {no transport interceptor, A, B} of length 2 and 3; every method of the kind is called on every carrier in turn, same oracle per call. CONTEXT cases: the RPC's context is already cancelled at dispatch (direct carrier) or is cancelled by the transport-level interceptor just before it calls onward (direct carrier and in-process channel, waiting for the server side to finish), all behaviours of T/outer/inner, same oracle on the event log and on identities (on the in-process channel the client-visible result is not judged in these cases). CLIENT-FLAG cases: on the in-process channel and the HTTP server the client opens the stream with a StreamDesc whose flags differ from the registered ones; interceptors must be told the registered flags. PASS-THROUGH cases (swept around the base grammar on 3 (quick) / 21 (thorough) descriptor shapes, other-kind interceptors absent): transport-level {absent or set} x outer {set} x inner {absent or set} interceptor, each set one taking every behaviour of {short-circuit, fail} + {pass, replace the response (stream: the error), replace the error (unary: (nil, Aborted) whatever came back; stream: swallow it)} x what it hands onward (unary: the request received / a modified clone of it x the context received / a derived context carrying a value; stream: the ServerStream received / a wrapper with a derived context that suffixes every message in both directions), x carrier x form x handler ok/error, minus the combinations the base grammar has; the oracle demands that each layer (next interceptor, then handler) is given exactly the request / stream object the previous layer handed onward, sees the context values of every layer before it, that each layer gets back exactly what the next one returned, that the handler reads the value with the suffixes of all replacing layers in order, and that the caller / client sees the model's result. OVERLAP cases (2 (quick) / 5 (thorough) descriptor shapes): two RPCs on ONE decorated carrier; one interceptor X on the path (transport-level, outer or inner in turn; layers before X pass or rewrite or are absent, layers after X take every behaviour) makes its single onward call late: inline after a gate opens / from another goroutine that waits for the gate while X waits for it / from another goroutine after X has returned DeadlineExceeded itself; RPC 1 is held at X's gate (in the last mode: has completed for its caller), then RPC 2 to every method of the kind (the same one included) runs ungated to completion, or is held the same way and the gates are opened 2-then-1 or 1-then-2; x carrier x form x handler ok/error. All waiting is on channels. The oracle is the statement per RPC (events are attributed to an RPC by the request value / stream metadata the event was given): each interceptor once, told that RPC's FullMethod and flags, handler iff every interceptor called onward, the handler of that RPC's method, results passed through; an onward-calling interceptor that has not returned yet reads the info object it was given a second time when its onward call has come back (as logging interceptors do), and it must still say the same. The overlap phase runs with GOMAXPROCS(1) and garbage collection only between cases, so that a sync.Pool hands back what was put last (calibrated: pool_reuse_calibration) and reuse of recycled per-call state by the other RPC happens every time; every overlap case is run twice and both runs must observe the same (overlap_repeat_identical; a difference is printed, and aborts the run as inconclusive unless one of the two runs violated the statement, which is then reported). VIEW PROGRAMS (views.go; view_programs / view_program_cases / view_program_calls): two root registries R0, R1 of the carrier type (HandlerMap whose decorated handlers are called directly / inprocgrpc.Channel / httpgrpc.Server), each behind a registrar that records what arrives, each with transport-level interceptor instances of its own or none; a program is any sequence of V derivations 'view = WithInterceptor(parent, u?, s?)' (parent: any registry that exists at that point, root or earlier view; (u?,s?) in {(u,-),(-,s),(u,s)}; every view has interceptor instances of its own) and R registrations 'description X/Y/Z (one unary and one stream method each; X bidi, Y server-, Z client-streaming), or the decorated description that an earlier registration put onto the other root, with a server object of its own, through any registry that exists at that point', in every interleaving (views that are derived and never registered through included; one description pointer may be registered on both roots; programs equal up to renaming of views / descriptions / roots are enumerated once). Sizes (V,R): quick (1,1) (1,2) (2,1) crossed, (2,2) swept, (3,1) at the base point; thorough (1,1) (1,2) (2,1) (2,2) crossed, (1,3) (3,1) swept, (2,3) at the base point with every way of making instances, (3,2) at the base point. Crossed = program x carrier x form (WithInterceptor objects / InterceptServer applied by hand along the path of views) x way of making the interceptor instances {closures returned by one factory function (distinct values, one code pointer) / method values of one receiver object per view (distinct values, one code pointer) / a function literal of its own per instance (distinct code) / the very same pair of function values for all views} x transport-level interceptors {none, on both roots} x when the calls are made {after the program in registration order / in reverse order / after every single operation, everything registered so far} x which view's interceptors fail instead of calling onward {none, each view in turn}; swept = the base point (closures, transport-level interceptors, calls at the end, nothing fails) and every point differing from it in one of these four dimensions. Every call is one unary and one stream RPC per registered service; oracle = the per-instance event log (transport-level interceptor of that root, then the interceptor of the kind of every view on the path from the root to the registry registered through, root-most first, then those the re-registered decoration result already had, each once, then the handler with that registration's server object, and nothing else) plus everything demanded of a single call above, plus the input descriptions unmodified. The four ways of making instances are calibrated at start-up (instance_calibration: code pointers equal / different as intended, every instance logs as itself), otherwise the run is inconclusive. ERROR IDENTITY cases (errident.go; error_identity_cases; swept around the base grammar on 3 descriptor shapes, other-kind interceptors absent): the error that travels up the chain is a plain Go error of each of 9 kinds {sentinel made with errors.New (one value per participant), that sentinel wrapped with fmt.Errorf %w, io.EOF, context.Canceled, context.DeadlineExceeded, a custom pointer type with Unwrap, a custom comparable value type, a *status.Error wrapped with fmt.Errorf %w, a custom type with a GRPCStatus method}, made by the handler (handler fails) or by the interceptor of any layer (fail-raw: returned instead of calling onward; rewrite-raw: returned in place of whatever came back) x carrier x form x unary / stream x transport-level {absent, pass, fail-raw, rewrite-raw} x outer {pass, fail-raw, rewrite-raw} x inner {absent, pass, fail-raw, rewrite-raw} x handler ok / fails (thorough: every layer additionally short-circuit, fail, rewrite, rewrite-err on the 3 shapes, and the small behaviour set on the other 18 shapes); only configurations in which the model makes a plain error on the way are run (the rest is in the base grammar). Oracle: every layer records the exact error value its onward call returned, and that must be the very value the next layer returned (same dynamic type and same pointer / equal comparable value; errors.Is and type assertions follow from that), on every hand-back handler -> inner -> outer -> transport-level interceptor, resp. -> the direct caller of the decorated handler; the client of a transport must see the code and message that grpc-go's server gives such an error (status.FromError, else status.FromContextError). The notion of identity is self-tested at start-up (error_identity_self_test). CONFIGURATION ORDER cases (cfgorder.go; config_order_programs / _cases / _calls): a carrier with transport-level interceptors as ONE long-lived object and every program of 1..3 (quick) / 1..4 (thorough) steps over {R: register a new service as it is; RD: register a new service decorated with interceptors of its own (form WI: through a WithInterceptor view derived right there, or with all views derived before the first step; form IS: InterceptServer by hand); X/K: configure transport-level interceptor X in {T1, T2, none} for K in {unary, stream, both}} that makes at least one call, with one unary and one stream RPC to every service registered so far after EVERY step, on 3 targets: inproc (one inprocgrpc.Channel, X/K = WithServerUnaryInterceptor / WithServerStreamInterceptor at any point, nil clears), httpsrv (one httpgrpc.Server, X/K = options in that order in NewServer's list, hence before the registrations), httpmux (one HandlerMap + one long-lived mux that is a map from pattern to handler, X/K = httpgrpc.HandleServices(mux, '/', map, u, s) with X for the kinds in K and nil for the others, re-registering a pattern replaces its handler; only services covered by a HandleServices call are called). Oracle per call: the transport-level interceptor of the call's kind in force WHEN THE CALL IS MADE (inproc: configured last; httpsrv: last option of the kind; httpmux: the arguments of the latest HandleServices that covered the service) first, then the service's own decoration, each exactly once, then that service's handler with its server object, plus everything demanded of a single call above; input descriptions unmodified. config_order_cases_reconfigured_after_a_registration counts programs with a configuration step after a registration; config_order_calls_in_force_differs_from_at_registration (measured) counts calls for which the interceptor in force differs from the one in force when the service was registered. ONWARD MULTIPLICITY cases (multiplicity.go; onward_multiplicity_cases / _calls): how many times an interceptor calls onward within one RPC, one call after the other (a server-side retry); everywhere else at most once. Transport-level {absent, short-circuit, fail, pass x n, rewrite x n} x outer decoration {short-circuit, fail, pass x n, rewrite x n} x inner decoration {absent, short-circuit, fail, pass x n, rewrite x n}, n = the number of onward calls the interceptor makes in every invocation (quick 1..2, thorough 1..3; it returns according to the result of the last one), restricted to the chains in which an interceptor with n >= 2 is reached, x what every onward call hands on {what the interceptor received | a fresh clone of the request tagged with layer and number of the onward call and a context derived for that call; stream: a fresh wrapper with such a context that tags every message in both directions} x handler {succeeds on every run, fails on every run, fails on its first run in the RPC and succeeds afterwards; varied where the handler is reached} x carrier x form x unary / stream on 3 (thorough 5) descriptor shapes, other-kind interceptors absent. Oracle: EVERY onward call of a layer leads to exactly one invocation of the next layer, and of the handler after the last one (event log = the depth-first unfolding of the chain; the events logged while an onward call runs are exactly that call's subtree); the next layer is given the very request / ServerStream that onward call handed on and a context with the values of every onward call above it; the onward call returns the very response and error the next layer returned; every invocation is told the right FullMethod and flags; the handler is the method's own, with the registered server object, and reads the request with the tags of the onward calls above it (stream: its first run; later runs find the end of the stream); the direct caller gets what the outermost participant returned and, for streams, exactly the model's messages; the client of a transport gets the model's status and response for unary RPCs (for streams what a client makes of a handler that ran several times on one stream is not judged; the check waits on a channel until the outermost participant has returned). The model's event log and client-visible result are compared at start-up with a real grpc-go server over bufconn whose interceptors are chained with grpc.ChainUnaryInterceptor / grpc.ChainStreamInterceptor, for every chain x handed-on x handler outcome of the tier's grammar (onward_multiplicity_reference); a disagreement makes the run inconclusive. A configuration is non-trivial when at least one method is called and at least one interceptor is on its path (onward multiplicity: when in at least one call an interceptor really made two or more onward calls, measured; error identity: and a plain error is made on the way; configuration order: when at least one call had an interceptor on its path, measured; overlap: when RPC 1 really was held at X's gate, measured; view programs: when at least one call had an interceptor on its path, measured); distinct by all parameters.",
+		"samples":                                                  append(append(append(append(append(append(samples, ptSamples...), ovSamples...), vwSamples...), eiSamples...), cfgSamples...), muSamples...),
+		"exhaustive":                                               true,
+		"suppressed_reports":                                       suppressed,
 	}, []string{
 		"original descriptors follow the contract of generated code (decode, then run the interceptor argument around the application method)",
 		"a panic in a server goroutine of the in-process channel would abort the checker (exit 2) instead of being reported",
@@ -1877,6 +1903,7 @@ func main() {
 		"the pass-through and overlap dimensions are swept around base cases on a few descriptor shapes with the other-kind interceptors absent, not crossed with the sharing / context / client-flag dimensions nor with each other",
 		"the error identity and configuration order dimensions are swept around base cases (error identity: 3 (thorough 21) descriptor shapes, other-kind interceptors absent, requests / contexts / streams handed onward as received; configuration order: services with one unary and one stream method, all interceptors call onward, handlers succeed), not crossed with the sharing / context / client-flag / pass-through / overlap / view-program dimensions nor with each other",
 		"configuration order: reconfiguring an in-process channel between RPCs (never while one is in flight) is taken to be legitimate use, and 'the transport-supplied interceptor' of an RPC is taken to be the one the carrier is configured with when the RPC is dispatched, which is what the unchanged library does; on httpgrpc.Server the options can only be given at construction, so only their order is varied there; the order in which several options of one kind apply (last wins) is taken from the unchanged library",
+		"onward multiplicity: swept around base cases (3 (thorough 5) descriptor shapes, other-kind interceptors absent, status errors, live contexts, registered client flags), not crossed with the other swept dimensions; the onward calls of one invocation are made one after the other on the interceptor's own goroutine before it returns (onward calls from other goroutines / after returning are the overlap cases), every invocation of an interceptor makes the same number; 'each applicable interceptor exactly once' is read per onward call made to it, as grpc-go's chained server interceptors behave",
 		"error identity: identity is interface equality of comparable error values (pointer identity for pointer types); errors of non-comparable dynamic types are not in the grammar",
 		"view programs: descriptor shapes, behaviours other than pass / fail, handler errors, contexts and client flags are not varied (the other parts of the grammar do that); views with no interceptor at all are left out because WithInterceptor(reg, nil, nil) is checked to return reg itself; the larger program sizes are swept around / run at one base point instead of crossed (see rule); when the very same function value is given to two nested views the oracle expects it to run once per view, which is what nesting means and what the unchanged library does",
 		"overlap cases: determinism of what a late onward call finds rests on GOMAXPROCS(1) + no collection while RPCs are in flight (sync.Pool then returns the object put last; calibrated at the start of the phase) and is verified by running each case twice with identical observations; in the go-late mode on a transport the messages a stream handler reads or sends after its RPC was completed are not judged, only the event log, what interceptors were told and the handler's identity",
